@@ -97,23 +97,56 @@ theorem id_of_pyEq (vr : Variant) (p : Proto) (m : RawResp V) (n : Nat)
   · rw [h0] at h; simp [pyEq, Id.num2] at h
   · exact h0
 
+theorem isPending_lt {futs : List (Fut V)} {t : Nat} (h : isPending futs t = true) :
+    t < futs.length := by
+  unfold isPending at h
+  split at h
+  · rename_i hs
+    rcases Nat.lt_or_ge t futs.length with h' | h'
+    · exact h'
+    · simp [getElem?_eq_none h'] at hs
+  · cases h
+
+/-- what a payload carries when it counts as a response: its own id and its own result -/
+theorem processResponse_ok (vr : Variant) (p : Proto) (m : RawResp V) (i : Id) (r : Res V)
+    (h : processResponse vr p m = (i, .ok r)) : m.id = some i ∧ r = m.res := by
+  unfold processResponse at h
+  cases hid : m.id with
+  | none => simp [hid] at h
+  | some i' =>
+    simp only [hid] at h
+    split at h
+    · simp at h
+    · split at h
+      · simp at h
+      · simp only [Prod.mk.injEq, Body.ok.injEq] at h
+        exact ⟨by rw [h.1], h.2.symm⟩
+
 /-- a single response that completes future `t`: `t` is the future of an outstanding single
-    request whose id the payload's own `"id"` equals -/
+    request whose id the payload's own `"id"` equals, and the future now holds exactly what the
+    payload carries (result, error, or the protocol error of a malformed response) -/
 theorem recvSingle_done_entry (vr : Variant) (k : Nat) (c : Conn V) (d : Proto) (m : RawResp V)
     (t : Nat) (h : (step vr k c (.recvSingle d m)).2 = .done [t]) :
-    ∃ n i, (Key.single n, t) ∈ c.out ∧ m.id = some i ∧ pyEq i (.int n) = true := by
-  rw [step_recvSingle] at h
-  unfold recvResponse at h
+    ∃ n i, (Key.single n, t) ∈ c.out ∧ m.id = some i ∧ pyEq i (.int n) = true ∧
+      (step vr k c (.recvSingle d m)).1.futs[t]? =
+        some (settle (processResponse vr (c.detect d) m).2) := by
+  rw [step_recvSingle] at h ⊢
+  unfold recvResponse at h ⊢
   split at h
   · cases h
-  · split at h
+  · rename_i hb
+    split at h
     · cases h
-    · rw [complete_obs] at h
+    · rename_i hu
+      rw [if_neg hb, if_neg hu]
+      rw [complete_obs] at h
+      rw [complete_futs]
       unfold obsIf at h
       split at h
       · rename_i e hfind
         split at h
-        · simp only [Obs.done.injEq, cons.injEq, and_true] at h
+        · rename_i hpend
+          simp only [Obs.done.injEq, cons.injEq, and_true] at h
           have hmem : e ∈ c.out := mem_of_find?_eq_some hfind
           have hp := find?_some hfind
           obtain ⟨key, t'⟩ := e
@@ -123,22 +156,31 @@ theorem recvSingle_done_entry (vr : Variant) (k : Nat) (c : Conn V) (d : Proto) 
             simp only [matchSingle] at hp
             simp only at h
             subst h
-            exact ⟨n, _, hmem, id_of_pyEq vr _ m n hp, hp⟩
+            refine ⟨n, _, hmem, id_of_pyEq vr _ m n hp, hp, ?_⟩
+            rw [hfind]
+            simp only [setIf, hpend, ↓reduceIte]
+            exact getElem?_set_self (isPending_lt hpend)
         · simp at h
       · cases h
 
-/-- a response batch that completes future `t`: `t` is the future of an outstanding batch, every
-    member of the message carries (as its own `"id"`) the id of a member of that batch, every
-    member of the batch is answered, and there are as many answers as members -/
-theorem recvBatch_done_entry (vr : Variant) (k : Nat) (c : Conn V) (d : Proto)
+/-- a response batch that completes future `t`: `t` is the future of an outstanding batch with
+    ids `ns`; the message has as many members as the batch, each carrying (as its own `"id"`) the
+    id of a batch member, each batch member answered; and the future now holds `rs` where `rs[j]`
+    is exactly the result or error carried by the member of the message whose id is `ns[j]` -
+    one outcome per request member, in the order the members were added -/
+theorem recvBatch_done_entry (vr : Variant) (k : Nat) {c : Conn V} (hinv : Inv c) (d : Proto)
     (ms : List (RawResp V)) (t : Nat) (h : (step vr k c (.recvBatch d ms)).2 = .done [t]) :
     ∃ ns, (Key.batch ns, t) ∈ c.out ∧ ms.length = ns.length ∧
       (∀ m ∈ ms, ∃ i n, m.id = some i ∧ n ∈ ns ∧ pyEq i (.int n) = true) ∧
-      (∀ n ∈ ns, ∃ m ∈ ms, ∃ i, m.id = some i ∧ pyEq i (.int n) = true) := by
+      (∀ n ∈ ns, ∃ m ∈ ms, ∃ i, m.id = some i ∧ pyEq i (.int n) = true) ∧
+      ∃ rs : List (Res V), (step vr k c (.recvBatch d ms)).1.futs[t]? = some (.batch rs) ∧
+        rs.length = ns.length ∧
+        ∀ j (hj : j < ns.length) (hj' : j < rs.length),
+          ∃ m ∈ ms, ∃ i, m.id = some i ∧ pyEq i (.int ns[j]) = true ∧ m.res = rs[j] := by
   obtain ⟨ns, t', pairs, hmem, hok, hperm, hts⟩ := batch_mismatch vr k c d ms [t] h
-  have ht : t' = t := by
+  have ht : t = t' := by
     rcases hts with h1 | h1
-    · simpa using h1.symm
+    · simpa using h1
     · cases h1
   subst ht
   have hlen : ms.length = ns.length := by
@@ -160,45 +202,76 @@ theorem recvBatch_done_entry (vr : Variant) (k : Nat) (c : Conn V) (d : Proto)
     rw [← hok] at this
     obtain ⟨m, hm, hme⟩ := mem_map.1 this
     exact ⟨m, hm, hme⟩
-  refine ⟨ns, hmem, hlen, ?_, ?_⟩
+  have hallow : (c.detect d).allowBatches = true := by
+    rw [step_recvBatch] at h
+    split at h
+    · cases h
+    · rename_i hb; simpa using hb
+  refine ⟨ns, hmem, hlen, ?_, ?_, ?_⟩
   · intro m hm
     obtain ⟨x, hx, hxe⟩ := hfwd m hm
     have hnum : x.1.num2 ∈ keyVals ns := hperm.subset (mem_map.2 ⟨x, hx, rfl⟩)
     obtain ⟨n, hn, hne⟩ := mem_map.1 hnum
     have hpy : pyEq x.1 (.int n) = true := (pyEq_int_iff _ _).2 hne.symm
-    have hfst : (processResponse vr (c.detect d) m).1 = x.1 := by rw [hxe]
-    refine ⟨x.1, n, ?_, hn, hpy⟩
-    have := id_of_pyEq vr (c.detect d) m n (by rw [hfst]; exact hpy)
-    rw [hfst] at this
-    exact this
+    exact ⟨x.1, n, (processResponse_ok vr _ m _ _ hxe).1, hn, hpy⟩
   · intro n hn
     have hnum : some (2 * (n : Int)) ∈ pairs.map (fun x => x.1.num2) :=
       hperm.symm.subset (mem_map.2 ⟨n, hn, rfl⟩)
     obtain ⟨x, hx, hxe⟩ := mem_map.1 hnum
     obtain ⟨m, hm, hme⟩ := hbwd x hx
     have hpy : pyEq x.1 (.int n) = true := (pyEq_int_iff _ _).2 hxe
-    have hfst : (processResponse vr (c.detect d) m).1 = x.1 := by rw [hme]
-    refine ⟨m, hm, x.1, ?_, hpy⟩
-    have := id_of_pyEq vr (c.detect d) m n (by rw [hfst]; exact hpy)
-    rw [hfst] at this
-    exact this
+    exact ⟨m, hm, x.1, (processResponse_ok vr _ m _ _ hme).1, hpy⟩
+  · obtain ⟨rs, hrl, hrs, hstep⟩ :=
+      recv_batch_aligned vr k hinv d ms ns t hallow hmem pairs hok hperm
+    refine ⟨rs, ?_, hrl, ?_⟩
+    · rw [hstep]
+      rw [hstep] at h
+      unfold popped at h ⊢
+      split
+      · rename_i hpend
+        exact getElem?_set_self (isPending_lt hpend)
+      · rename_i hpend
+        simp [hpend] at h
+    · intro j hj hj'
+      obtain ⟨⟨i, hir, hi⟩, _⟩ := hrs j hj hj'
+      obtain ⟨m, hm, hme⟩ := hbwd (i, rs[j]) hir
+      obtain ⟨hid, hres⟩ := processResponse_ok vr _ m _ _ hme
+      exact ⟨m, hm, i, hid, hi, hres.symm⟩
+
+/-- a future that has its outcome keeps it to the end of every history (`fut_final` iterated) -/
+theorem run_fut_final (vr : Variant) (k : Nat) (ops : List (Op V)) (c : Conn V) (t : Nat)
+    (f : Fut V) (h : c.futs[t]? = some f) (hf : f ≠ .pending) :
+    (run vr k c ops).1.futs[t]? = some f := by
+  induction ops generalizing c with
+  | nil => exact h
+  | cons op ops ih => exact ih _ (fut_final vr k c op t f h hf)
+
+theorem settle_ne_pending (b : Body V) : settle b ≠ .pending := by
+  cases b with
+  | ok r => cases r <;> simp [settle]
+  | malformed => simp [settle]
 
 /-- the statement of `completes_causing_request` from any state whose entries are owned -/
-theorem run_done_owned (vr : Variant) (k : Nat) (ops : List (Op V)) :
-    ∀ (c : Conn V) (pre : List Obs), Owned pre c → ∀ j t,
+theorem run_done_owned (vr : Variant) {k : Nat} (hk : 0 < k) (ops : List (Op V)) :
+    ∀ (c : Conn V) (pre : List Obs), Inv c → Owned pre c → ∀ j t,
       (run vr k c ops).2[j]? = some (.done [t]) →
       (∀ d m, ops[j]? = some (.recvSingle d m) →
         ∃ n i, Obs.sent [n] (some t) ∈ pre ++ (run vr k c ops).2.take j ∧
-          m.id = some i ∧ pyEq i (.int n) = true) ∧
+          m.id = some i ∧ pyEq i (.int n) = true ∧
+          ∃ pr, (run vr k c ops).1.futs[t]? = some (settle (processResponse vr pr m).2)) ∧
       (∀ d ms, ops[j]? = some (.recvBatch d ms) →
         ∃ ns, Obs.sent ns (some t) ∈ pre ++ (run vr k c ops).2.take j ∧
           ms.length = ns.length ∧
           (∀ m ∈ ms, ∃ i n, m.id = some i ∧ n ∈ ns ∧ pyEq i (.int n) = true) ∧
-          (∀ n ∈ ns, ∃ m ∈ ms, ∃ i, m.id = some i ∧ pyEq i (.int n) = true)) := by
+          (∀ n ∈ ns, ∃ m ∈ ms, ∃ i, m.id = some i ∧ pyEq i (.int n) = true) ∧
+          ∃ rs : List (Res V), (run vr k c ops).1.futs[t]? = some (.batch rs) ∧
+            rs.length = ns.length ∧
+            ∀ j' (hj : j' < ns.length) (hj' : j' < rs.length),
+              ∃ m ∈ ms, ∃ i, m.id = some i ∧ pyEq i (.int ns[j']) = true ∧ m.res = rs[j']) := by
   induction ops with
-  | nil => intro c pre _ j t h; simp [run] at h
+  | nil => intro c pre _ _ j t h; simp [run] at h
   | cons op ops ih =>
-    intro c pre hown j t h
+    intro c pre hinv hown j t h
     simp only [run] at h ⊢
     cases j with
     | zero =>
@@ -207,15 +280,19 @@ theorem run_done_owned (vr : Variant) (k : Nat) (ops : List (Op V)) :
       constructor
       · intro d m hop
         subst hop
-        obtain ⟨n, i, hmem, hid, hpy⟩ := recvSingle_done_entry vr k c d m t h
-        exact ⟨n, i, by simpa [Key.ids] using hown _ _ hmem, hid, hpy⟩
+        obtain ⟨n, i, hmem, hid, hpy, hval⟩ := recvSingle_done_entry vr k c d m t h
+        exact ⟨n, i, by simpa [Key.ids] using hown _ _ hmem, hid, hpy, c.detect d,
+          run_fut_final vr k ops _ t _ hval (settle_ne_pending _)⟩
       · intro d ms hop
         subst hop
-        obtain ⟨ns, hmem, hlen, h1, h2⟩ := recvBatch_done_entry vr k c d ms t h
-        exact ⟨ns, by simpa [Key.ids] using hown _ _ hmem, hlen, h1, h2⟩
+        obtain ⟨ns, hmem, hlen, h1, h2, rs, hval, hrl, hrs⟩ :=
+          recvBatch_done_entry vr k hinv d ms t h
+        exact ⟨ns, by simpa [Key.ids] using hown _ _ hmem, hlen, h1, h2, rs,
+          run_fut_final vr k ops _ t _ hval (by simp), hrl, hrs⟩
     | succ j =>
       simp only [getElem?_cons_succ] at h ⊢
-      have := ih (step vr k c op).1 (pre ++ [(step vr k c op).2]) (step_owned vr k hown op) j t h
+      have := ih (step vr k c op).1 (pre ++ [(step vr k c op).2]) (step_inv vr hk hinv op)
+        (step_owned vr k hown op) j t h
       simpa [take_succ_cons, append_assoc] using this
 
 /-- **completes_causing_request.**  Along every history from a fresh connection (any protocol,
@@ -223,24 +300,36 @@ theorem run_done_owned (vr : Variant) (k : Nat) (ops : List (Op V)) :
     duplicates, unknown ids, cancellations and give-ups in between): if the message received at
     position `j` completes future `t`, then an EARLIER send of the same history handed out future
     `t`, and
-    * a single response carries, as its own `"id"`, exactly the one id that send drew;
-    * a response batch answers exactly the ids that send drew: as many members as the batch has,
-      each member carrying the id of a batch member and each batch member answered.
+    * a single response carries, as its own `"id"`, exactly the one id that send drew, and at the
+      END of the history the future still holds exactly what that response carried (its result,
+      its error, or the protocol error of a malformed response);
+    * a response batch answers exactly the ids `ns` that send drew - as many members as the batch
+      has, each member carrying the id of a batch member and each batch member answered - and at
+      the end of the history the future holds `rs` with `rs[j]` = the result or error carried by
+      the member of the message whose id is `ns[j]`: one outcome per request member, in the order
+      the members were added, whatever the order of the members in the response.
     Together with `ids_never_reused` (no other send of the history drew any of these ids) and
     `ticket_sent_once` (no other send handed out future `t`) the response completes the request
-    that caused it and no other. -/
-theorem completes_causing_request (vr : Variant) (k : Nat) (p : Option Proto)
+    that caused it and no other, with exactly what the peer sent. -/
+theorem completes_causing_request (vr : Variant) {k : Nat} (hk : 0 < k) (p : Option Proto)
     (start : Nat) (ops : List (Op V)) (j t : Nat)
     (h : (run vr k (Conn.init p start) ops).2[j]? = some (.done [t])) :
     (∀ d m, ops[j]? = some (.recvSingle d m) →
       ∃ n i, Obs.sent [n] (some t) ∈ (run vr k (Conn.init p start) ops).2.take j ∧
-        m.id = some i ∧ pyEq i (.int n) = true) ∧
+        m.id = some i ∧ pyEq i (.int n) = true ∧
+        ∃ pr, (run vr k (Conn.init p start) ops).1.futs[t]? =
+          some (settle (processResponse vr pr m).2)) ∧
     (∀ d ms, ops[j]? = some (.recvBatch d ms) →
       ∃ ns, Obs.sent ns (some t) ∈ (run vr k (Conn.init p start) ops).2.take j ∧
         ms.length = ns.length ∧
         (∀ m ∈ ms, ∃ i n, m.id = some i ∧ n ∈ ns ∧ pyEq i (.int n) = true) ∧
-        (∀ n ∈ ns, ∃ m ∈ ms, ∃ i, m.id = some i ∧ pyEq i (.int n) = true)) := by
-  simpa using run_done_owned vr k ops (Conn.init p start) [] (Owned.init p start) j t h
+        (∀ n ∈ ns, ∃ m ∈ ms, ∃ i, m.id = some i ∧ pyEq i (.int n) = true) ∧
+        ∃ rs : List (Res V), (run vr k (Conn.init p start) ops).1.futs[t]? = some (.batch rs) ∧
+          rs.length = ns.length ∧
+          ∀ j' (hj : j' < ns.length) (hj' : j' < rs.length),
+            ∃ m ∈ ms, ∃ i, m.id = some i ∧ pyEq i (.int ns[j']) = true ∧ m.res = rs[j']) := by
+  simpa using run_done_owned vr hk ops (Conn.init p start) [] (Inv.init p start)
+    (Owned.init p start) j t h
 
 /-- non-vacuity: request 0 is answered, request 1 is sent, the answer to request 0 arrives again
     (rejected: id 0 is not handed out a second time), request 1 is answered: the two completions
@@ -250,7 +339,16 @@ example :
     (run (repaired true true) 1 (Conn.init (some .v2) 0)
       [.sendRequest true, .recvSingle .v2 (r 0 5), .sendRequest true, .recvSingle .v2 (r 0 5),
        .recvSingle .v2 (r 1 6)]).2
-      = [.sent [0] (some 0), .done [0], .sent [1] (some 1), .raised .protocolError, .done [1]] := by
+      = [.sent [0] (some 0), .done [0], .sent [1] (some 1), .raised .protocolError, .done [1]] ∧
+    -- a batch (ids 0, 1, 2) answered in the order 2, 0, 1 while a later single is outstanding:
+    -- completed at position 2 by the send at position 0, results in member order to the end
+    (run (repaired true true) 1 (Conn.init (some .v2) 0)
+      [.sendBatch [.req, .req, .req] true, .sendRequest true,
+       .recvBatch .v2 [r 2 22, ⟨some (.int 0), true, .err 20⟩, r 1 21],
+       .recvSingle .v2 (r 3 9), .cancelAll])
+      = ({ proto := some .v2, next := 4, out := [],
+           futs := [.batch [.err 20, .val 21, .val 22], .result 9] },
+         [.sent [0, 1, 2] (some 0), .sent [3] (some 1), .done [0], .done [1], .cancelled []]) := by
   decide
 
 /-! ## every future is handed out once -/
